@@ -75,6 +75,7 @@ class Keeper:
         self.release = []            # queue of plans
         self.current = None
         self.calls = []              # host-side record of acquire/attest
+        self.attest_in_progress = None
         self.trace = []              # (seconds since start, event): the driver's own timeline, attached to a report when lock-step is in doubt
         self.t0 = time.time()
         self.fab.handlers["secure-channel/status"] = self._status
@@ -136,6 +137,11 @@ class Keeper:
             a = plan.get("attest", {"kind": "ok"})
             # "lost": the host latches the key but its reply never reaches the guest
             ok = a["kind"] in ("ok", "lost")
+            if a.get("delay"):
+                self.tr("attest-held")
+                self.attest_in_progress = guid
+                time.sleep(a["delay"])            # the host takes its time to acknowledge the attestation
+                self.attest_in_progress = None
             self.calls.append(("attest", guid, ok, req))
             if a["kind"] == "http":
                 return (a["code"], "text/plain", b"attest failure")
